@@ -3,6 +3,6 @@ CONSTANTS
   Defects = {}
   RegKeys = {"PM", "CP", "CT", "IA", "IB", "CE1", "NIL"}
   RegSers = {"CBOR", "U1"}
-  MaxRegs = 4
+  MaxRegs = 3
 INVARIANTS ClosedFormOK
 CHECK_DEADLOCK FALSE
